@@ -82,7 +82,13 @@ def run(ctx):
         ctx.extra['wiring_not_forwarded'] = [list(x) for x in info['not_forwarded']]
     except Exception as e:   # noqa
         ctx.bridge('translator: sort wiring extracted', False, repr(e))
-    ctx.prove(['PetlProofs.Props.C11'], REQUIRED)
+    from translators import merge_shape as _ms
+    try:
+        _msi = _ms.generate()
+        ctx.bridge('translator: %d syntactic facts about the merge machinery of sorts.py' % len(_msi['facts']), True)
+    except Exception as e:   # noqa
+        ctx.bridge('translator: merge machinery facts extracted', False, repr(e))
+    ctx.prove(['PetlProofs.Props.C11', 'PetlProofs.Props.C05Shape'], REQUIRED + ['Petl.C05.merge_machinery_as_modelled'])
     rng = ctx.rng
     ops = operators(etl)
     tmpd = tempfile.mkdtemp(prefix='petl_c11_')
